@@ -87,6 +87,92 @@ func ruleC10Union(p *Program, r *Run) {
 	r.Floor("C10/union", 90)
 }
 
+// classifyResult: the idx-th result of a call of a module function, from the function's return statements.
+func (sc *spanClassifier) classifyResult(call *ast.CallExpr, idx int) (string, string) {
+	fn := Callee(sc.info, call)
+	decl, pkg := sc.p.DeclOf(fn)
+	if decl == nil || sc.depth > 3 {
+		return "unknown", "result of " + exprStr(call.Fun)
+	}
+	sub := &spanClassifier{p: sc.p, pkg: pkg, info: sc.info, fd: decl, depth: sc.depth + 1}
+	named := namedResults(decl)
+	worst, hows := "token", []string{}
+	merge := func(k, h string) {
+		hows = append(hows, h)
+		switch {
+		case k == "unknown":
+			worst = "unknown"
+		case k == "null" && worst != "unknown":
+			worst = "null"
+		case k == "copy" && worst == "token":
+			worst = "copy"
+		}
+	}
+	seen := false
+	bareNamed := false
+	ast.Inspect(decl.Body, func(n ast.Node) bool {
+		switch v := n.(type) {
+		case *ast.FuncLit:
+			return false
+		case *ast.ReturnStmt:
+			seen = true
+			switch {
+			case len(v.Results) == 0 && idx < len(named):
+				bareNamed = true
+			case idx < len(v.Results):
+				merge(sub.classify(v.Results[idx]))
+			default:
+				merge("unknown", "a return forwarding another call")
+			}
+		}
+		return true
+	})
+	if bareNamed {
+		merge(sub.classify(named[idx]))
+	}
+	if !seen {
+		return "unknown", "result of " + exprStr(call.Fun)
+	}
+	return worst, "result #" + fmt.Sprint(idx) + " of " + fn.Name() + " = {" + strings.Join(hows, " | ") + "}"
+}
+
+// classifyParam: a Span parameter is what the call sites pass (all of them, direct calls only).
+func (sc *spanClassifier) classifyParam(idx int) (string, string, bool) {
+	fn := FuncObj(sc.p.PkgOf(sc.fd.Pos()), sc.fd)
+	if fn == nil || !sc.p.onlyCalledDirectly(fn) || sc.depth > 3 {
+		return "", "", false
+	}
+	worst, hows := "token", []string{}
+	n := 0
+	for _, pkg := range sc.p.All {
+		for _, caller := range AllFuncs(pkg) {
+			ast.Inspect(caller.Body, func(x ast.Node) bool {
+				call, ok := x.(*ast.CallExpr)
+				if !ok || Callee(sc.info, call) != fn || idx >= len(call.Args) {
+					return true
+				}
+				n++
+				sub := &spanClassifier{p: sc.p, pkg: pkg, info: sc.info, fd: caller, depth: sc.depth + 1}
+				k, h := sub.classify(call.Args[idx])
+				hows = append(hows, h)
+				switch {
+				case k == "unknown":
+					worst = "unknown"
+				case k == "null" && worst != "unknown":
+					worst = "null"
+				case k == "copy" && worst == "token":
+					worst = "copy"
+				}
+				return true
+			})
+		}
+	}
+	if n == 0 {
+		return "", "", false
+	}
+	return worst, strings.Join(hows, " | "), true
+}
+
 // spanClass classifies a Span-valued expression.
 type spanClassifier struct {
 	p     *Program
@@ -144,21 +230,41 @@ func (sc *spanClassifier) classify(e ast.Expr) (kind, how string) {
 	if id, ok := e.(*ast.Ident); ok && sc.fd != nil && sc.depth < 3 {
 		if o, isVar := objOf(sc.info, id).(*types.Var); isVar && types.Identical(o.Type(), sc.p.spanType()) {
 			var defs []ast.Expr
+			type viaCall struct {
+				call *ast.CallExpr
+				idx  int
+			}
+			var calls []viaCall
 			ast.Inspect(sc.fd.Body, func(n ast.Node) bool {
-				if as, ok := n.(*ast.AssignStmt); ok && len(as.Lhs) == len(as.Rhs) {
+				if as, ok := n.(*ast.AssignStmt); ok {
 					for i, l := range as.Lhs {
-						if objOf(sc.info, l) == types.Object(o) {
+						if objOf(sc.info, l) != types.Object(o) {
+							continue
+						}
+						if len(as.Lhs) == len(as.Rhs) {
 							defs = append(defs, as.Rhs[i])
+						} else if len(as.Rhs) == 1 {
+							// a, sp, b := f(): the i-th result of a module function
+							if call, ok := ast.Unparen(as.Rhs[0]).(*ast.CallExpr); ok {
+								calls = append(calls, viaCall{call, i})
+							} else {
+								defs = append(defs, as.Rhs[0]) // not classifiable
+							}
 						}
 					}
 				}
 				return true
 			})
-			if len(defs) > 0 {
+			// a parameter: whatever is passed at every call site; a named result: its assignments (above)
+			if idx := paramIndex(sc.info, sc.fd, o); idx >= 0 && len(defs) == 0 && len(calls) == 0 {
+				if k, h, ok := sc.classifyParam(idx); ok {
+					return k, "parameter " + id.Name + " = {" + h + "}"
+				}
+			}
+			if len(defs) > 0 || len(calls) > 0 {
 				worst, hows := "token", []string{}
 				sc.depth++
-				for _, d := range defs {
-					k, h := sc.classify(d)
+				merge := func(k, h string) {
 					hows = append(hows, h)
 					switch {
 					case k == "unknown":
@@ -168,6 +274,13 @@ func (sc *spanClassifier) classify(e ast.Expr) (kind, how string) {
 					case k == "copy" && worst == "token":
 						worst = "copy"
 					}
+				}
+				for _, vc := range calls {
+					merge(sc.classifyResult(vc.call, vc.idx))
+				}
+				for _, d := range defs {
+					k, h := sc.classify(d)
+					merge(k, h)
 				}
 				sc.depth--
 				return worst, "local variable " + id.Name + " = {" + strings.Join(hows, " | ") + "}"
